@@ -34,7 +34,7 @@ EXTENDS GlomData
 CONSTANTS Fixes,     \* subset of {"stop", "skiptrace"}: candidate repairs applied to the
                      \* transcribed mechanism ({} = the code as it is)
           Mutant     \* "none" | "carry" | "avgint" | "limit1" | "firstlast" | "curagg" | "minnum" | "sampledrop" |
-                     \* "list2swap" | "eqskip" | "eager" | "idkeys" | "rawbucket" | "nobase":
+                     \* "list2swap" | "eqskip" | "eager" | "idkeys" | "sumswap" | "rawbucket" | "nobase":
                      \* wrong mechanisms the laws must reject (vacuity check); the last two are
                      \* the mechanisms of glom before fd673fd / b769243
 
@@ -132,6 +132,13 @@ FlatElems(vf, x)  ==                      \* list += value: its elements (keys o
   ELSE PairElems(x)
 MergePairs(vf, x) == IF vf \in InnerKinds THEN InnerValue(vf, x).items ELSE KvPairs(x)
 
+\* Sum(init=str) / Sum(init=tuple): addition that is not commutative - concatenation, in encounter order
+CatKinds == {"cats", "catt"}
+CatInit(vf) == IF vf = "cats" THEN VStr("") ELSE VTup(<<>>)
+CatAdd(a, b) == IF a.k = "str" THEN VStr(a.s \o b.s) ELSE VTup(a.items \o b.items)      \* a + b
+RECURSIVE CatAll(_, _, _)
+CatAll(acc, xs, i) == IF i > Len(xs) THEN acc ELSE CatAll(CatAdd(acc, xs[i]), xs, i + 1)
+
 RECURSIVE SumVals(_, _)
 SumVals(vf, xs) == IF xs = <<>> THEN 0 ELSE SumAddend(vf, Head(xs)) + SumVals(vf, Tail(xs))
 RECURSIVE MaxOf(_, _, _)
@@ -175,7 +182,8 @@ RefLeaf(L, xs) ==
          CASE L.agg = "Count"   -> VInt(Len(xs))                       \* len(xs)
            [] L.agg = "Sample"  -> IF L.n = 0 THEN DList(<<>>)   \* a sample of no values
                                    ELSE DList(xs)          \* n out of no more than n values: all of them
-           [] L.agg = "Sum"     -> VInt(SumVals(L.val, xs))            \* sum(val(x) for x in xs)
+           [] L.agg = "Sum"     -> IF L.val \in CatKinds THEN CatAll(CatInit(L.val), xs, 1)     \* reduce(add, xs, init())
+                                   ELSE VInt(SumVals(L.val, xs))       \* sum(val(x) for x in xs)
            [] L.agg = "Flatten" -> DList(ConcatMap(L.val, xs))              \* list(chain.from_iterable(..))
            [] L.agg = "Merge"   -> DDict(MergeAll(L.val, <<>>, xs))         \* d = {}; d.update(..) ...
            [] OTHER ->
@@ -288,8 +296,10 @@ AggEval(h, ta, l, L, x) ==
          IN R([h1 EXCEPT ![a].items = <<VInt(s), VInt(n)>>],
               IF Mutant = "avgint" THEN Norm(s \div n, 1) ELSE Norm(s, n))
     [] L.agg = "Sum" ->                                           \* tree[self] = init(); iadd
-         LET cur == IF has THEN DGet(h, ta, me) ELSE VInt(0)
-             nv  == VInt(cur.i + SumAddend(L.val, x))
+         LET cur == IF has THEN DGet(h, ta, me) ELSE IF L.val \in CatKinds THEN CatInit(L.val) ELSE VInt(0)
+             nv  == IF L.val \in CatKinds                        \* op(tree[self], target)  (mutant "sumswap": swapped)
+                    THEN (IF Mutant = "sumswap" THEN CatAdd(x, cur) ELSE CatAdd(cur, x))
+                    ELSE VInt(cur.i + SumAddend(L.val, x))
          IN R(DSet(h, ta, me, nv), nv)
     [] L.agg = "Count" ->
          LET cur == IF has THEN DGet(h, ta, me) ELSE VInt(0)
